@@ -224,3 +224,11 @@ func (w *World) DialCount() int {
 	defer w.mu.Unlock()
 	return w.Dials
 }
+
+// ParkNoDeadlineOffsets returns the inbound offsets at which a Read had to
+// wait for input while no read deadline was set.
+func (c *Conn) ParkNoDeadlineOffsets() []int {
+	c.w.mu.Lock()
+	defer c.w.mu.Unlock()
+	return append([]int(nil), c.ParkNoDeadline...)
+}
